@@ -170,7 +170,7 @@ def vector_elasticity(c, degree=1):
     mu = Constant(c.mesh)
     lam = Constant(c.mesh)
     eps = lambda w: sym(grad(w))  # noqa: E731
-    return (2 * mu * inner(eps(u), eps(v)) + lam * tr(eps(u)) * tr(eps(v))) * dx
+    return (2 * mu * inner(eps(u), eps(v)) + lam * inner(tr(eps(u)), tr(eps(v)))) * dx
 
 
 @builder
@@ -179,7 +179,7 @@ def tensor_space(c, degree=1, symmetry=False):
     S = c.V("Lagrange", degree, shape=(g, g), symmetry=True if symmetry else None)
     s, t = TrialFunction(S), TestFunction(S)
     K = Constant(c.mesh, shape=(g, g))
-    return inner(s, t) * dx + tr(s) * t[0, g - 1] * dx + inner(dot(K, s), t) * dx
+    return inner(s, t) * dx + inner(tr(s), t[0, g - 1]) * dx + inner(dot(K, s), t) * dx
 
 
 @builder
@@ -234,7 +234,7 @@ def mixed_poisson(c, degree=1):
     (sigma, u) = TrialFunctions(W)
     (tau, w) = TestFunctions(W)
     f = Coefficient(c.space(DG))
-    return (inner(sigma, tau) - div(tau) * u + div(sigma) * w + f * u * w) * dx
+    return (inner(sigma, tau) - inner(u, div(tau)) + inner(div(sigma), w) + f * inner(u, w)) * dx
 
 
 @builder
@@ -252,7 +252,7 @@ def real_space(c):
     v = TestFunction(P)
     f = Coefficient(P)
     r = Coefficient(Rs)
-    return (1 + f * f) * lam * v * dx + r * lam * v * dx
+    return (1 + f * f) * inner(lam, v) * dx + r * inner(lam, v) * dx
 
 
 @builder
@@ -399,7 +399,7 @@ def multi_rule_vertex(c, d1=3):
 def manifold_mass(c, degree=2):
     V = c.V("Lagrange", degree)
     u, v = TrialFunction(V), TestFunction(V)
-    return (u * v + inner(grad(u), grad(v))) * dx
+    return (inner(u, v) + inner(grad(u), grad(v))) * dx
 
 
 @builder
@@ -413,7 +413,7 @@ def tp_mass_stiff(c, degree=2, blocked=False):
     f = Coefficient(V)
     if blocked:
         return (inner(u, v) + inner(f, f) * inner(grad(u), grad(v))) * dx
-    return (u * v + (1 + f * f) * inner(grad(u), grad(v))) * dx
+    return (inner(u, v) + (1 + f * f) * inner(grad(u), grad(v))) * dx
 
 
 @builder
@@ -506,7 +506,7 @@ def dS_piola(c, family="RT", degree=1):
     V = c.V(family, degree)
     u, v = TrialFunction(V), TestFunction(V)
     n = c.n
-    return (inner(u("+"), n("+")) * inner(v("-"), n("-")) + inner(jump(u), jump(v))) * dS
+    return (inner(u("+"), n("+")) * inner(n("-"), v("-")) + inner(jump(u), jump(v))) * dS
 
 
 @builder
@@ -759,7 +759,9 @@ class Gen:
     def contract(self, e1, k1, e0, k0):
         if e0 is None:
             fl = self.fill(k1)
-            return e1 if fl is None else inner(e1, fl) if not self.complex_ok else inner(fl, e1)
+            if fl is None:
+                return ufl.conj(e1) if self.complex_ok else e1
+            return inner(fl, e1) if self.complex_ok else inner(e1, fl)
         if k0 == k1:
             return inner(e1, e0)
         # different kinds: reduce each to a scalar with a filler
@@ -975,3 +977,44 @@ def packing(c, seed=(0,), ncoef=6, nconst=3, arity=1, use_dS=True, mode="subsets
     b = Built(c, forms=[form])
     b.all_coefficients = coefs
     return b
+
+
+@builder
+def complex_ops(c, which=0):
+    """Forms exercising conj/real/imag/abs, complex literals and complex math functions (sesquilinear)."""
+    V = c.V("Lagrange", 2 if c.tdim < 3 else 1)
+    u, v = TrialFunction(V), TestFunction(V)
+    f = Coefficient(V)
+    k = Constant(c.mesh)
+    if which == 0:
+        return (inner(grad(u), grad(v)) + (1 + 2j) * k * f * inner(u, v) + ufl.real(f) * ufl.imag(k) * abs(f) * u * ufl.conj(v)
+                + sqrt(f * f + (3 + 1j)) * dot(grad(f), ufl.conj(grad(v))) * u) * dx
+    if which == 1:
+        return (exp(0.3 * f) * sin(f) * inner(u, v) + cos(k * f) * ufl.conj(f) * inner(u.dx(0), v)) * dx
+    if which == 2:
+        # linear form, complex literal, dot vs inner
+        return (inner(f * (2.0 - 1.5j), v) + dot(grad(f), grad(ufl.conj(v))) + ufl.conj(k) * ufl.imag(f) * ufl.conj(v)) * dx
+    if which == 3:
+        # functional with abs, real, imag
+        return (abs(f) ** 2 + ufl.real(k * f) + ufl.imag(f * f) + ufl.real(ln(f * ufl.conj(f) + 2.0))) * dx
+    if which == 4:
+        # derivative in complex mode
+        F = inner((1 + f * f) * grad(f), grad(v)) * dx
+        return derivative(F, f, u)
+    if which == 5:
+        n = c.n
+        return (inner(jump(u), jump(v)) + (0.5 + 1j) * inner(avg(grad(u)), n("+")) * ufl.conj(jump(v)) + f("+") * ufl.conj(f("-")) * inner(u("+"), v("-"))) * dS
+    raise ValueError(which)
+
+
+@builder
+def tp_forms(c, which="advection", degree=2):
+    el = basix.create_tp_element(basix.ElementFamily.P, basix.CellType[c.cell], degree, basix.LagrangeVariant.gll_warped)
+    V = c.space(basix.ufl.wrap_element(el))
+    u, v = TrialFunction(V), TestFunction(V)
+    f = Coefficient(V)
+    if which == "advection":
+        return (inner(dot(grad(f), grad(u)), v) + f * inner(u, v)) * dx
+    if which == "linear":
+        return (exp(0.3 * f) * inner(grad(f), grad(v)) + inner(f * f, v)) * dx
+    return (f * f + inner(grad(f), grad(f))) * dx
